@@ -581,6 +581,26 @@ pub mod oneshot {
 
 // ---------------------------------------------------------------- tokio::time::timeout (rule T, A2)
 pub struct Elapsed;
+/// the timer's own mark in the log.  Attribution variant `vx-notimer` (DESIGN 8.11) erases the timer alphabet, here and in the
+/// vocabulary alike, so that the same relations state everything about a call except what is specific to its deadline.
+#[cfg(not(feature = "vx-notimer"))]
+pub open spec fn tm_log(l: Seq<Eff>, d: Duration) -> Seq<Eff> { l.push(Eff::TimeoutArmed(d)) }
+#[cfg(feature = "vx-notimer")]
+pub open spec fn tm_log(l: Seq<Eff>, d: Duration) -> Seq<Eff> { l }
+/// `l1` ends with the timer mark of deadline d / `l1` without it
+#[cfg(not(feature = "vx-notimer"))]
+pub open spec fn tm_last_ok(l1: Seq<Eff>, d: Duration) -> bool { l1.len() > 0 && l1.last() == Eff::TimeoutArmed(d) }
+#[cfg(feature = "vx-notimer")]
+pub open spec fn tm_last_ok(l1: Seq<Eff>, d: Duration) -> bool { true }
+#[cfg(not(feature = "vx-notimer"))]
+pub open spec fn tm_strip(l1: Seq<Eff>) -> Seq<Eff> { l1.drop_last() }
+#[cfg(feature = "vx-notimer")]
+pub open spec fn tm_strip(l1: Seq<Eff>) -> Seq<Eff> { l1 }
+/// the Timeout error names the deadline and the operation it was given
+#[cfg(not(feature = "vx-notimer"))]
+pub open spec fn tm_fields_ok(timeout: Duration, d: Duration, operation: Seq<char>, op: Seq<char>) -> bool { timeout == d && operation == op }
+#[cfg(feature = "vx-notimer")]
+pub open spec fn tm_fields_ok(timeout: Duration, d: Duration, operation: Seq<char>, op: Seq<char>) -> bool { true }
 
 /// Either the inner operation completed (its log stands) or the deadline passed while it was
 /// suspended at one of its Await markers: the log is cut there (the future was dropped; the
@@ -591,9 +611,9 @@ pub fn vx_timeout_resolve<R>(d: Duration, inner: R, Ghost(l0): Ghost<Seq<Eff>>, 
     requires
         l0.len() <= old(w).log().len(), /*L:timeout.inner_log_extends*/
     ensures
-        (r == Ok::<R, Elapsed>(inner) && final(w).log() == old(w).log().push(Eff::TimeoutArmed(d)))
+        (r == Ok::<R, Elapsed>(inner) && final(w).log() == tm_log(old(w).log(), d))
         || (r is Err && exists|k: int| l0.len() <= k < old(w).log().len() && (#[trigger] old(w).log()[k] is Await)
-                && final(w).log() == old(w).log().take(k).push(Eff::TimeoutArmed(d))),
+                && final(w).log() == tm_log(old(w).log().take(k), d)),
         same_ambient(*old(w), *final(w)),
 { unimplemented!() }
 
@@ -827,7 +847,7 @@ impl Mutex<HashMap<u64, Identity>> {
         ensures
             r is Ok <==> !old(w).poisoned(),
             r is Ok ==> final(w).lock_held() && r->Ok_0@ == final(w).graph()
-                        && final(w).log() == old(w).log().push(Eff::Lock(final(w).graph())),
+                        && final(w).log() == dd_lock_log(old(w).log(), final(w).graph()),
             r is Err ==> !final(w).lock_held() && final(w).log() == old(w).log() && final(w).graph() == old(w).graph(),
             final(w).current_actor() == old(w).current_actor(), final(w).poisoned() == old(w).poisoned(),
             final(w).mmon() == old(w).mmon(), final(w).cap_cell() == old(w).cap_cell(),
@@ -835,6 +855,17 @@ impl Mutex<HashMap<u64, Identity>> {
             final(w).dl_count() == old(w).dl_count(), final(w).own_strong() == old(w).own_strong(), final(w).cells() == old(w).cells(),
     { unimplemented!() }
 }
+
+/// the lock's marks in the log.  Attribution variant `vx-nodd` (DESIGN 8.11) erases the deadlock-detection alphabet, here and in
+/// the vocabulary alike, so that the same relations state what a call does apart from its wait-for bookkeeping.
+#[cfg(all(feature = "deadlock-detection", not(feature = "vx-nodd")))]
+pub open spec fn dd_lock_log(l: Seq<Eff>, g: Map<u64, Identity>) -> Seq<Eff> { l.push(Eff::Lock(g)) }
+#[cfg(all(feature = "deadlock-detection", feature = "vx-nodd"))]
+pub open spec fn dd_lock_log(l: Seq<Eff>, g: Map<u64, Identity>) -> Seq<Eff> { l }
+#[cfg(all(feature = "deadlock-detection", not(feature = "vx-nodd")))]
+pub open spec fn dd_unlock_log(l: Seq<Eff>, g: Map<u64, Identity>) -> Seq<Eff> { l.push(Eff::Unlock(g)) }
+#[cfg(all(feature = "deadlock-detection", feature = "vx-nodd"))]
+pub open spec fn dd_unlock_log(l: Seq<Eff>, g: Map<u64, Identity>) -> Seq<Eff> { l }
 
 /// the global wait-for mutex (`WAIT_FOR.get_or_init(..)`): one per process
 #[cfg(feature = "deadlock-detection")]
@@ -847,7 +878,7 @@ impl VxDrop for Box<HashMap<u64, Identity>> {
     open spec fn drop_eff(&self, w0: World, w1: World) -> bool {
         &&& !w1.lock_held()
         &&& w1.graph() == (**self)@
-        &&& w1.log() == w0.log().push(Eff::Unlock((**self)@))
+        &&& w1.log() == dd_unlock_log(w0.log(), (**self)@)
         &&& w1.current_actor() == w0.current_actor()
         &&& w1.poisoned() == w0.poisoned()
         &&& w1.mmon() == w0.mmon()
